@@ -361,6 +361,40 @@ def _strip_result_use(e):
     return e
 
 
+def _assume_equal(nf, cond):
+    """nf under the condition `x == "literal"`: x is that literal there"""
+    if not (isinstance(cond, tuple) and cond[0] == "binop" and cond[1] == "Eq"):
+        return nf
+    a, b = cond[2], cond[3]
+    if isinstance(a, tuple) and a[0] == "lit" and not (isinstance(b, tuple) and b[0] == "lit"):
+        a, b = b, a
+    if not (isinstance(b, tuple) and b[0] == "lit" and isinstance(b[1], str)) or (isinstance(a, tuple) and a[0] == "lit"):
+        return nf
+
+    def sub(n):
+        if n == a:
+            return b
+        if isinstance(n, tuple):
+            return tuple(sub(x) if isinstance(x, tuple) else x for x in n)
+        return n
+    return sub(nf)
+
+
+def _fold_literal_format(nf):
+    """a format whose pieces are all literal text is that text"""
+    if isinstance(nf, tuple) and nf[0] == "format":
+        out = []
+        for p in nf[1]:
+            if p[0] == "lit":
+                out.append(p[1])
+            elif p[0] == "hole" and isinstance(p[1], tuple) and p[1][0] == "lit" and isinstance(p[1][1], str) and (len(p) < 3 or p[2] == "display"):
+                out.append(p[1][1])
+            else:
+                return nf
+        return ("lit", "".join(out))
+    return nf
+
+
 def _is_local(e, lid):
     e = H.strip(e)
     while e.get("k") == "AddrOf" or (e.get("k") == "Unary" and e.get("op") == "Deref"):
@@ -733,6 +767,21 @@ class NF:
             if e.get("k") == "MethodCall" and e["name"] in ("push_str", "push") and len(self._mutations(lid, [e])) == 1:
                 parts += text_of(e["args"][0], env2)
                 continue
+            if e.get("k") == "If" and not e.get("else") and H.strip(e["cond"]).get("k") != "LetExpr":
+                # `if c { s.push(x) }`: the text so far, with x appended when c holds (c may test the text so far)
+                inner = [y for y in H.exprs(e["then"]) if y.get("k") == "MethodCall" and y["name"] in ("push_str", "push")]
+                tb = H.strip(e["then"])
+                only = tb.get("k") == "Block" and len(tb["b"]["stmts"]) + (1 if tb["b"].get("tail") else 0) == 1
+                if len(inner) == 1 and only and len(self._mutations(lid, [e])) == 1 and _is_local(inner[0]["recv"], lid):
+                    sofar = parts[0][1] if len(parts) == 1 and parts[0][0] == "hole" else ("format", tuple(parts))
+                    env_c = env2.child()
+                    env_c.m[lid] = sofar
+                    cond = self.nf(e["cond"], env_c)
+                    more = ("format", tuple(parts + text_of(inner[0]["args"][0], env_c)))
+                    more = _fold_literal_format(_assume_equal(more, cond))
+                    parts = [("hole", ("ifelse", cond, more, sofar), "display", "?")]
+                    continue
+                return None
             if e.get("k") == "MethodCall" and e["name"] == "write_fmt" and _is_local(e["recv"], lid):
                 parts += text_of(e["args"][0], env2)
                 continue
@@ -808,6 +857,15 @@ class NF:
                 return sb
         elif is_string and (init[0] == "lit" and isinstance(init[1], str) or init[0] == "format"):
             sb = self._string_builder(pat, rest, env, start=init)
+            if sb is not None:
+                return sb
+        elif is_string and init[0] == "call" and str(init[1]).endswith("String::with_capacity"):
+            sb = self._string_builder(pat, rest, env)
+            if sb is not None:
+                return sb
+        elif is_string and init[0] not in ("unknown", "list"):
+            # any other text to start from (`let mut s = f(x); if c { s.push('_') }`)
+            sb = self._string_builder(pat, rest, env, start=("format", (("hole", init, "display", "?"),)))
             if sb is not None:
                 return sb
         if init[0] != "list":
@@ -893,6 +951,10 @@ class NF:
         if clo.get("k") != "Closure":
             # a path to a function used as a callback (e.g. ToString::to_string)
             p = self.nf(clo, env)
+            if isinstance(p, tuple) and p[0] == "closure" and p[1] in self._clos:
+                # a closure bound to a local and handed over by name (`let f = |n| ..; x.is_some_and(f)`)
+                c2, cenv = self._clos[p[1]]
+                return self.closure_apply(c2, arg_nfs, cenv)
             if p[0] == "const" and any(p[1].endswith(s) for s in IDENTITY_FNS) and len(arg_nfs) == 1:
                 return arg_nfs[0]
             return ("call", p[1] if p[0] == "const" else "?callback", tuple(arg_nfs))
@@ -1858,6 +1920,10 @@ class CallExpander:
         return self.cache[path]
 
     def expand(self, n, depth=0):
+        r = self._expand(n, depth)
+        return nf_simplify(r) if depth == 0 else r     # `Struct { f: e, .. }.f` of an expanded constructor helper is e
+
+    def _expand(self, n, depth=0):
         if not isinstance(n, tuple) or depth > 6:
             return n
         if n[0] == "call" and isinstance(n[1], str):
